@@ -580,3 +580,205 @@ def hex_to_int(h):
 
 def int_to_hex(v, n):
     return (v & ((1 << (8 * n)) - 1)).to_bytes(n, 'little').hex()
+
+
+# ---------------------------------------------------------------------------------------------- FpuSpec contracts on the CPU
+
+CONTRACT_C = r"""#include <stdio.h>
+#include <string.h>
+typedef unsigned long u64; typedef unsigned int u32; typedef unsigned short u16;
+typedef struct { u64 lo; u64 hi; } b80;     /* 10 value bytes of a long double + padding */
+static void p80(b80 v) { unsigned __int128 x = ((unsigned __int128)(v.hi & 0xffff) << 64) | v.lo;
+  char buf[64]; int n = 0; if (x == 0) buf[n++] = '0'; while (x) { buf[n++] = '0' + (int)(x % 10); x /= 10; }
+  while (n) putchar(buf[--n]); }
+static b80 ld2b(long double l) { b80 r; r.lo = 0; r.hi = 0; memcpy(&r, &l, 10); return r; }
+static long double b2ld(b80 b) { long double l = 0; memcpy(&l, &b, 10); return l; }
+#define FLAGS(f) (int)((f >> 6) & 1), (int)((f >> 2) & 1), (int)(f & 1)
+"""
+
+CONTRACT_MAIN = r"""
+int main(void) {
+  for (int i = 0; i < N_F32; i++) { float f; memcpy(&f, &F32[i], 4); u32 r; u64 q; double d; long double l; u64 db;
+    __asm__ volatile("cvttss2sil %1, %0" : "=r"(r) : "x"(f)); printf("cvttss2si32 %u %u\n", F32[i], r);
+    __asm__ volatile("cvttss2siq %1, %0" : "=r"(q) : "x"(f)); printf("cvttss2si64 %u %lu\n", F32[i], q);
+    __asm__ volatile("cvtss2sd %1, %0" : "=x"(d) : "x"(f)); memcpy(&db, &d, 8); printf("cvtss2sd %u %lu\n", F32[i], db);
+    __asm__ volatile("flds %1; fstpt %0" : "=m"(l) : "m"(f)); printf("fld32 %u ", F32[i]); p80(ld2b(l)); printf("\n"); }
+  for (int i = 0; i < N_F64; i++) { double f; memcpy(&f, &F64[i], 8); u32 r; u64 q; long double l;
+    __asm__ volatile("cvttsd2sil %1, %0" : "=r"(r) : "x"(f)); printf("cvttsd2si32 %lu %u\n", F64[i], r);
+    __asm__ volatile("cvttsd2siq %1, %0" : "=r"(q) : "x"(f)); printf("cvttsd2si64 %lu %lu\n", F64[i], q);
+    __asm__ volatile("fldl %1; fstpt %0" : "=m"(l) : "m"(f)); printf("fld64 %lu ", F64[i]); p80(ld2b(l)); printf("\n"); }
+  for (int i = 0; i < N_F80; i++) { long double l = b2ld(F80[i]); u16 cw, cw2; u16 r16; u32 r32; u64 r64; long double m;
+    __asm__ volatile("fnstcw %0" : "=m"(cw)); cw2 = cw | 0x0c00;
+    __asm__ volatile("fldcw %2; fldt %1; fistps %0; fldcw %3" : "=m"(r16) : "m"(l), "m"(cw2), "m"(cw));
+    printf("fistp16 "); p80(F80[i]); printf(" %u\n", (unsigned)r16);
+    __asm__ volatile("fldcw %2; fldt %1; fistpl %0; fldcw %3" : "=m"(r32) : "m"(l), "m"(cw2), "m"(cw));
+    printf("fistp32 "); p80(F80[i]); printf(" %u\n", r32);
+    __asm__ volatile("fldcw %2; fldt %1; fistpq %0; fldcw %3" : "=m"(r64) : "m"(l), "m"(cw2), "m"(cw));
+    printf("fistp64 "); p80(F80[i]); printf(" %lu\n", r64);
+    __asm__ volatile("fldt %1; fchs; fstpt %0" : "=m"(m) : "m"(l));
+    printf("fchs "); p80(F80[i]); printf(" "); p80(ld2b(m)); printf("\n"); }
+  for (int i = 0; i < N_I16; i++) { long double l; __asm__ volatile("filds %1; fstpt %0" : "=m"(l) : "m"(I16[i]));
+    printf("fild16 %u ", (unsigned)I16[i]); p80(ld2b(l)); printf("\n"); }
+  for (int i = 0; i < N_I32; i++) { long double l; float f; double d; u32 fb; u64 db;
+    __asm__ volatile("fildl %1; fstpt %0" : "=m"(l) : "m"(I32[i])); printf("fild32 %u ", I32[i]); p80(ld2b(l)); printf("\n");
+    __asm__ volatile("cvtsi2ssl %1, %0" : "=x"(f) : "r"(I32[i]), "0"(0.0f)); memcpy(&fb, &f, 4); printf("cvtsi2ss32 %u %u\n", I32[i], fb);
+    __asm__ volatile("cvtsi2sdl %1, %0" : "=x"(d) : "r"(I32[i]), "0"(0.0)); memcpy(&db, &d, 8); printf("cvtsi2sd32 %u %lu\n", I32[i], db); }
+  for (int i = 0; i < N_I64; i++) { long double l; float f; double d; u32 fb; u64 db;
+    __asm__ volatile("fildq %1; fstpt %0" : "=m"(l) : "m"(I64[i])); printf("fild64 %lu ", I64[i]); p80(ld2b(l)); printf("\n");
+    __asm__ volatile("cvtsi2ssq %1, %0" : "=x"(f) : "r"(I64[i]), "0"(0.0f)); memcpy(&fb, &f, 4); printf("cvtsi2ss64 %lu %u\n", I64[i], fb);
+    __asm__ volatile("cvtsi2sdq %1, %0" : "=x"(d) : "r"(I64[i]), "0"(0.0)); memcpy(&db, &d, 8); printf("cvtsi2sd64 %lu %lu\n", I64[i], db); }
+  for (int i = 0; i < N_P32; i++) { float a, b; memcpy(&a, &PA32[i], 4); memcpy(&b, &PB32[i], 4); u64 fl;
+    __asm__ volatile("ucomiss %2, %1; pushfq; pop %0" : "=r"(fl) : "x"(a), "x"(b) : "cc"); printf("ucomiss %u %u %d %d %d\n", PA32[i], PB32[i], FLAGS(fl)); }
+  for (int i = 0; i < N_P64; i++) { double a, b; memcpy(&a, &PA64[i], 8); memcpy(&b, &PB64[i], 8); u64 fl;
+    __asm__ volatile("ucomisd %2, %1; pushfq; pop %0" : "=r"(fl) : "x"(a), "x"(b) : "cc"); printf("ucomisd %lu %lu %d %d %d\n", PA64[i], PB64[i], FLAGS(fl)); }
+  for (int i = 0; i < N_P80; i++) { long double a = b2ld(PA80[i]), b = b2ld(PB80[i]); u64 fl;
+    __asm__ volatile("fldt %2; fldt %1; fcomip; fstp %%st(0); pushfq; pop %0" : "=r"(fl) : "m"(a), "m"(b) : "cc");
+    printf("fcomi "); p80(PA80[i]); printf(" "); p80(PB80[i]); printf(" %d %d %d\n", FLAGS(fl)); }
+  return 0;
+}
+"""
+
+
+def contract_program(values):
+    """values: {'i16','i32','i64': [unsigned patterns], 'f32','f64','f80': [patterns], 'pairs32/64/80': [(a,b)]}
+    Each contract's instruction is executed through gcc inline assembly; one line `name inputs outputs` per execution."""
+    out = [CONTRACT_C]
+
+    def arr(name, ty, vals):
+        out.append(f'static {ty} {name}[] = {{' + ','.join(f'{v}u' + ('l' if ty == 'u64' else '') for v in vals) + '};')
+
+    def arr80(name, vals):
+        out.append(f'static b80 {name}[] = {{' + ','.join(f'{{{v & ((1 << 64) - 1)}ul,{v >> 64}ul}}' for v in vals) + '};')
+    arr('I16', 'u16', values['i16'])
+    arr('I32', 'u32', values['i32'])
+    arr('I64', 'u64', values['i64'])
+    arr('F32', 'u32', values['f32'])
+    arr('F64', 'u64', values['f64'])
+    arr80('F80', values['f80'])
+    arr('PA32', 'u32', [a for a, _ in values['pairs32']])
+    arr('PB32', 'u32', [b for _, b in values['pairs32']])
+    arr('PA64', 'u64', [a for a, _ in values['pairs64']])
+    arr('PB64', 'u64', [b for _, b in values['pairs64']])
+    arr80('PA80', [a for a, _ in values['pairs80']])
+    arr80('PB80', [b for _, b in values['pairs80']])
+    for macro, key in (('N_I16', 'i16'), ('N_I32', 'i32'), ('N_I64', 'i64'), ('N_F32', 'f32'), ('N_F64', 'f64'), ('N_F80', 'f80'),
+                       ('N_P32', 'pairs32'), ('N_P64', 'pairs64'), ('N_P80', 'pairs80')):
+        out.append(f'#define {macro} {len(values[key])}')
+    out.append(CONTRACT_MAIN)
+    return '\n'.join(out) + '\n'
+
+
+# ---------------------------------------------------------------------------------------------- further contexts
+
+def incdec_program(values):
+    """postfix / prefix ++ and -- on floating objects: value of the expression and the stored value"""
+    out = [PRELUDE]
+    cases = {}
+    calls = []
+    forms = [('postinc', 'x++'), ('postdec', 'x--'), ('preinc', '++x'), ('predec', '--x')]
+    for t in FTYS:
+        vs = values[t]
+        out.append(carray(f'D_{t}', src_rows(t, vs)))
+        body = [f'static void id_{t}(void) {{', f'  for (int i = 0; i < {len(vs)}; i++) {{',
+                f'    T_{t} tx; memcpy(&tx, D_{t}[i], sizeof tx);']
+        for name, ex in forms:
+            body.append(f'    {{ T_{t} x = tx; T_{t} r = {ex}; dump("{t}.{name}.val", i, 0, &r, {nbytes(t)}); dump("{t}.{name}.obj", i, 0, &x, {nbytes(t)}); }}')
+        body.append('  }\n}')
+        out.append('\n'.join(body))
+        calls.append(f'  id_{t}();')
+        for i in range(len(vs)):
+            for name, _ in forms:
+                cases[f'{t}.{name}.val {i} 0'] = (t, name, 'val', i)
+                cases[f'{t}.{name}.obj {i} 0'] = (t, name, 'obj', i)
+    out.append('int main(void) {\n' + '\n'.join(calls) + '\n  return 0;\n}')
+    return '\n'.join(out) + '\n', cases
+
+
+def incdec_minimal(t, name, which, a):
+    ex = {'postinc': 'x++', 'postdec': 'x--', 'preinc': '++x', 'predec': '--x'}[name]
+    return (f'#include <stdio.h>\n#include <string.h>\nint main(void) {{\n'
+            f'  unsigned char s[16] = {{{",".join(map(str, to_bytes(16, a)))}}};\n'
+            f'  {CNAME[t]} x; memcpy(&x, s, sizeof x);\n  {CNAME[t]} r = {ex};\n'
+            f'  unsigned char o[16]; memcpy(o, &{"r" if which == "val" else "x"}, sizeof r);\n'
+            f'  for (int i = 0; i < {nbytes(t)}; i++) printf("%02x", o[i]);\n  printf("\\n");\n  return 0;\n}}\n')
+
+
+EXTRAS_C = PRELUDE + r'''
+#include <stdarg.h>
+static void pb(const char *n, const void *p, int k) { printf("%s 0 0 ", n); hx(p, k); printf("\n"); }
+static double vsum(int n, ...) { va_list ap; va_start(ap, n); double s = 0; for (int i = 0; i < n; i++) s += va_arg(ap, double); va_end(ap); return s; }
+static long double vsuml(int n, ...) { va_list ap; va_start(ap, n); long double s = 0; for (int i = 0; i < n; i++) s += va_arg(ap, long double); va_end(ap); return s; }
+static float tof(double d) { return d; }
+static long tol(float f) { return f; }
+static double fromi(int i) { return i; }
+static long double told(unsigned long u) { return u; }
+static unsigned char touc(long double l) { return l; }
+static float gf1 = 0.1; static double gd1 = 16777217; static float gf2 = 16777217; static int gi = 2.9; static int gi2 = -2.9;
+static long double gl = 0.1; static long double gl2 = 0.1f; static float gf3 = 1.0000000596046448;
+static double gdd = 1.0f / 3.0f; static float gsum = 0.1f + 0.2f; static double gsum2 = 0.1 + 0.2; static float gmix = 0.1f + 0.2;
+static _Bool gb = 0.5; static _Bool gb2 = -0.0; static long double gdiv = 1.0L / 3; static double gneg = -(0.1 * 3);
+static unsigned long gu1 = 9223372036854775807.0L; static long gl3 = -9223372036854775808.0; static unsigned gu32 = 4294967295.0;
+static float gcast = (float)0.1 + (float)0.2; static double gcond = 1 ? 0.1f : 0.2; static long double gfromu = 18446744073709551615UL;
+static double gfroml = -9223372036854775807L; static float gfromu32 = 4294967295u;
+struct S { unsigned b : 3; int c : 5; };
+int main(void) {
+  volatile float f; volatile double d; volatile long double l; float g; double e; long double m; int ii; unsigned u; long tl;
+  volatile int i = 7; i += 0.5; ii = i; pb("i+=0.5", &ii, 4);
+  i = 7; i *= 1.5f; ii = i; pb("i*=1.5f", &ii, 4);
+  i = 7; i /= 0.3L; ii = i; pb("i/=0.3L", &ii, 4);
+  i = 7; i -= 7.9; ii = i; pb("i-=7.9", &ii, 4);
+  volatile unsigned long ul = 1UL << 62; ul += 1.0f; unsigned long ull = ul; pb("ul+=1.0f", &ull, 8);
+  ul = 12345678901234567UL; ul /= 3.0L; ull = ul; pb("ul/=3.0L", &ull, 8);
+  f = 0.1f; f += 0.2; g = f; pb("f+=0.2", &g, 4);
+  f = 0.1f; f += 0.2L; g = f; pb("f+=0.2L", &g, 4);
+  f = 16777216.0f; f += 1; g = f; pb("f+=1", &g, 4);
+  d = 0.1; d *= 3; e = d; pb("d*=3", &e, 8);
+  d = 1e308; d *= 10.0f; e = d; pb("d*=10f", &e, 8);
+  l = 0.1L; l -= 0.1; m = l; pb("l-=0.1", &m, 10);
+  volatile signed char c = 100; c += 27.9; signed char cc = c; pb("c+=27.9", &cc, 1);
+  volatile unsigned short us = 65535; us *= 0.5f; unsigned short uss = us; pb("us*=0.5f", &uss, 2);
+  f = 1.5f; e = vsum(3, f, 2.25f, (float)0.1); pb("vsum", &e, 8);
+  f = 0.1f; d = 0.2; e = vsum(4, f, d, 1, 0.3f); pb("vsum-int-mixed", &e, 8);
+  l = 0.1L; m = vsuml(2, l, 2.5L); pb("vsuml", &m, 10);
+  d = 0.1; g = tof(d); pb("tof", &g, 4);
+  f = -3.99f; tl = tol(f); pb("tol", &tl, 8);
+  e = fromi(-5); pb("fromi", &e, 8);
+  g = tof(16777217); pb("tof(int)", &g, 4);
+  g = tof(16777217L); pb("tof(long)", &g, 4);
+  g = tof(0.1L); pb("tof(ld)", &g, 4);
+  m = told(18446744073709551615UL); pb("told", &m, 10);
+  l = 255.9L; cc = touc(l); pb("touc", &cc, 1);
+  pb("gf1", &gf1, 4); pb("gd1", &gd1, 8); pb("gf2", &gf2, 4); pb("gi", &gi, 4); pb("gi2", &gi2, 4); pb("gl", &gl, 10);
+  pb("gl2", &gl2, 10); pb("gf3", &gf3, 4); pb("gdd", &gdd, 8); pb("gsum", &gsum, 4); pb("gsum2", &gsum2, 8); pb("gmix", &gmix, 4);
+  pb("gb", &gb, 1); pb("gb2", &gb2, 1); pb("gdiv", &gdiv, 10); pb("gneg", &gneg, 8); pb("gu1", &gu1, 8); pb("gl3", &gl3, 8);
+  pb("gu32", &gu32, 4); pb("gcast", &gcast, 4); pb("gcond", &gcond, 8); pb("gfromu", &gfromu, 10); pb("gfroml", &gfroml, 8);
+  pb("gfromu32", &gfromu32, 4);
+  i = 1; e = i ? 1 : 2.5f; pb("?:", &e, 8); ii = sizeof(i ? 1 : 2.5f); pb("sz?:", &ii, 4);
+  ii = sizeof(1 ? 1.0f : 2.0L); pb("sz?:2", &ii, 4); ii = sizeof(1.0f + 1); pb("szf+i", &ii, 4); ii = sizeof(1.0f + 1.0); pb("szf+d", &ii, 4);
+  ii = sizeof(1UL + 1.0f); pb("szul+f", &ii, 4); ii = sizeof(-1.0f); pb("sz-f", &ii, 4); ii = sizeof(!1.0L); pb("sz!l", &ii, 4);
+  ii = sizeof(1.0L < 2); pb("szcmp", &ii, 4); ii = sizeof((char)1 + 1.0f); pb("szc+f", &ii, 4);
+  struct S st; d = 5.7; st.b = d; st.c = -d; ii = st.b; pb("bf", &ii, 4); ii = st.c; pb("bf2", &ii, 4);
+  f = 2.5f; _Bool bb = f; pb("bb", &bb, 1); f = -0.0f; bb = f; pb("bb0", &bb, 1);
+  f = 0.0f; f = f / f; ii = !!f; pb("!!nan", &ii, 4); ii = f ? 3 : 4; pb("nan?", &ii, 4); ii = (f == f); pb("nan==", &ii, 4);
+  ii = (f != f) + 2 * (f < f) + 4 * (f <= f) + 8 * (f > f) + 16 * (f >= f); pb("nanrel", &ii, 4);
+  d = 3.0; ii = (int)d % 2; pb("mod", &ii, 4);
+  float arr[3] = {1, 2.5, 3L}; pb("arr1", &arr[1], 4); pb("arr2", &arr[2], 4);
+  double darr[2] = {0.1f, 1e40L}; pb("darr0", &darr[0], 8); pb("darr1", &darr[1], 8);
+  f = 3.7f; ii = (char)f; pb("(char)f", &ii, 4);
+  d = -1e-320; e = -d; pb("negdenorm", &e, 8);
+  u = 3000000000u; f = u; g = f; pb("u32f32", &g, 4); d = u; e = d; pb("u32f64", &e, 8);
+  f = 3e9f; u = f; pb("f32u32", &u, 4);
+  ii = (1.0 + 1e-19L) > 1.0L; pb("ldcmp", &ii, 4);
+  ii = (0.1f == 0.1); pb("0.1f==0.1", &ii, 4); ii = (0.5f == 0.5); pb("0.5f==0.5", &ii, 4);
+  ii = (16777217 == 16777217.0f); pb("int==float", &ii, 4); ii = (9007199254740993L < 9007199254740992.0); pb("long<double", &ii, 4);
+  f = 1e-45f; d = f; e = d * 0.5; g = e; pb("denorm-half", &g, 4);
+  d = 1.7976931348623157e308; e = d + d; pb("ovf", &e, 8); e = -d - d; pb("-ovf", &e, 8);
+  d = 4.9406564584124654e-324; e = d / 2; pb("unf", &e, 8);
+  l = 1.0L; m = l / 3; e = m; pb("ld/3->d", &e, 8); g = m; pb("ld/3->f", &g, 4);
+  f = 1.0f; g = f / 3; e = g; pb("f/3->d", &e, 8);
+  d = 0.1; e = (d + 0.2) - 0.3; pb("0.1+0.2-0.3", &e, 8);
+  f = 0.1f; g = (f + 0.2f) - 0.3f; pb("0.1f+0.2f-0.3f", &g, 4);
+  f = 0.1f; g = f * f * f; pb("fff", &g, 4); d = 0.1; e = d * d * d; pb("ddd", &e, 8);
+  return 0;
+}
+'''
